@@ -500,7 +500,11 @@ func (g *mgGen) genCall(ret string, d int) *mgExpr {
 	for k, t := range g.sigs[j].ptypes {
 		if g.sigs[j].rec && k == 0 {
 			// the recursion counter: small
-			e.Args = append(e.Args, g.mkBin("Mod", g.genInt(d-1), mgLit(7)))
+			a := g.mkBin("Mod", g.genInt(d-1), mgLit(7))
+			if a.isConst() { // mkBin fell back to a literal: keep the recursion shallow
+				a = mgLit(int64(g.r.intn(7)))
+			}
+			e.Args = append(e.Args, a)
 			continue
 		}
 		e.Args = append(e.Args, g.genOf(t, d-1))
